@@ -1,21 +1,21 @@
 (** C06 proofs: the invariant holds along every schedule; the clauses of the
     specification hold of every event the model appends to its history. *)
-From Verif Require Import Lib.Base C06.Spec C06.Model C06.Lemmas C06.Inv C06.InvB C06.InvC C06.InvD C06.InvE C06.InvV C06.InvX.
+From Verif Require Import Lib.Base C06.Spec C06.Model C06.Lemmas C06.Inv C06.InvB C06.InvC C06.InvD C06.InvE C06.InvV C06.InvX C06.InvQ C06.InvO.
 From Coq Require Import Permutation.
 Local Open Scope nat_scope.
 
 Record Inv (c : config) (s : st) : Prop :=
-  { iA : InvA s; iB : InvB s; iC : InvC s; iD : InvD s; iE : InvE s; iV : InvV s; iX : InvX c s }.
+  { iA : InvA s; iB : InvB s; iC : InvC s; iD : InvD s; iE : InvE s; iV : InvV s; iX : InvX c s; iQ : InvQ c s; iO : InvO s }.
 
 Lemma inv_init c : Inv c init.
 Proof.
   constructor; [apply invA_init | apply invB_init | apply invC_init | apply invD_init
-               | apply invE_init | apply invV_init | apply invX_init].
+               | apply invE_init | apply invV_init | apply invX_init | apply invQ_init | apply invO_init].
 Qed.
 
 Lemma inv_step c s a s' : valid c -> Inv c s -> step c s a = Some s' -> Inv c s'.
 Proof.
-  intros Hv [HA HB HC HD HE HV HX] H. constructor.
+  intros Hv [HA HB HC HD HE HV HX HQ HO] H. constructor.
   - eapply invA_step; eauto.
   - eapply invB_step; eauto.
   - eapply invC_step; eauto.
@@ -23,6 +23,8 @@ Proof.
   - eapply invE_step; eauto.
   - eapply invV_step; eauto.
   - eapply invX_step; eauto.
+  - eapply invQ_step; eauto.
+  - eapply invO_step; eauto. eapply invC_step; eauto.
 Qed.
 
 Lemma inv_run c sch : valid c -> forall s s', Inv c s -> run_from c s sch = Some s' -> Inv c s'.
@@ -40,7 +42,7 @@ Lemma begin_ok_holds c s rs resp :
   valid c -> Inv c s -> ex s = XNext rs resp ->
   begin_ok all_guards c (hist s) (firstn (maxb c) rs) = true.
 Proof.
-  intros [_ [Hm _]] [HA HB HC HD _ _ _] He. unfold begin_ok.
+  intros [_ [Hm _]] [HA HB HC HD _ _ _ _ HO] He. unfold begin_ok.
   pose proof (a_next s HA) as Hn. rewrite He in Hn.
   assert (Hsub : forall x, In x (firstn (maxb c) rs) -> In x rs).
   { intros x Hx. rewrite <- (firstn_skipn (maxb c) rs). apply in_or_app; now left. }
@@ -60,7 +62,7 @@ Proof.
       pose proof (cnt_split x (maxb c) rs). lia.
   - destruct (ordered_after (exported (hist s)) (firstn (maxb c) rs)) eqn:Eo; [reflexivity|].
     cbn [all_guards g_overlap andb].
-    destruct (overlap (hist s)) eqn:Ev; [reflexivity|].
+    destruct (overlap (hist s)) eqn:Ev; [cbn [andb]; eapply all_before_holds; eauto|].
     pose proof (c_ord s HC Ev) as Ho. unfold seqn, pend in Ho. rewrite He in Ho. cbn [xpend] in Ho.
     rewrite <- (firstn_skipn (maxb c) rs) in Ho. rewrite <- !app_assoc in Ho.
     rewrite ordered_app in Ho. apply andb_true_iff in Ho as [Ho H3]. apply andb_true_iff in Ho as [H1 H2].
@@ -158,7 +160,7 @@ Section Readings.
     Permutation (enq s) (exported (hist s) ++ dropped s ++ lostE s ++ lostD s ++ pend s) /\
     NoDup (enq s) /\ incl (enq s) (emitted (hist s)).
   Proof.
-    destruct (inv_reach c sch s Hv Hr) as [_ HB _ _ _ _ _]. repeat split.
+    destruct (inv_reach c sch s Hv Hr) as [_ HB _ _ _ _ _ _ _]. repeat split.
     - apply (Permutation_count_occ rec_eq_dec). intro x.
       pose proof (b_cnt s HB x) as H. unfold total, cnt in *. unfold pend.
       rewrite !count_occ_app. lia.
@@ -168,46 +170,92 @@ Section Readings.
 
   Lemma p_at_most_once : NoDup (exported (hist s)).
   Proof.
-    destruct (inv_reach c sch s Hv Hr) as [_ HB _ _ _ _ _]. apply NoDup_cnt. intro x.
+    destruct (inv_reach c sch s Hv Hr) as [_ HB _ _ _ _ _ _ _]. apply NoDup_cnt. intro x.
     pose proof (b_nodup s HB x) as H. rewrite (b_cnt s HB x) in H. unfold total in H. lia.
   Qed.
 
   Lemma p_clone_isolation x : In x (exported (hist s)) -> In x (emitted (hist s)).
   Proof.
-    intro Hx. destruct (inv_reach c sch s Hv Hr) as [_ HB _ _ _ _ _].
+    intro Hx. destruct (inv_reach c sch s Hv Hr) as [_ HB _ _ _ _ _ _ _].
     apply (b_prov s HB). apply seqn_in_enq; [assumption|]. apply in_or_app; now left.
   Qed.
 
   Lemma p_order : overlap (hist s) = false -> ordered (exported (hist s)) = true.
   Proof.
-    intro Ho. destruct (inv_reach c sch s Hv Hr) as [_ _ HC _ _ _ _].
+    intro Ho. destruct (inv_reach c sch s Hv Hr) as [_ _ HC _ _ _ _ _ _].
     pose proof (c_ord s HC Ho) as H. unfold seqn in H. rewrite ordered_app in H.
     apply andb_true_iff in H as [H _]. now apply andb_true_iff in H as [H _].
   Qed.
 End Readings.
 
 (** ** visibility at the moment ForceFlush / Shutdown return nil *)
-Lemma visible_holds c s t :
-  Inv c s -> place s (pcs s t) = Some (base s) -> guard s t -> visible c (hist s) t = true.
+Lemma in_base c s t r :
+  Inv c s -> place s (pcs s t) = Some (base s) -> guard s t -> In r (P s t) ->
+  In r (exported (hist s)) \/ excused c (hist s) r = true \/ In r (lostE s).
 Proof.
-  intros Hi Hp G. unfold visible. apply forallb_forall. intros r Hr.
+  intros Hi Hp G Hr.
   pose proof (v_place s (iV c s Hi) t _ Hp G r Hr) as Hb. unfold base in Hb.
-  destruct (memb r (exported (hist s))) eqn:Em; [reflexivity|].
-  apply in_app_or in Hb as [Hb|Hb]; [apply memb_In in Hb; congruence|].
-  now apply (iX c s Hi).
+  apply in_app_or in Hb as [Hb|Hb]; [now left|]. apply in_app_or in Hb as [Hb|Hb]; [|now right; right].
+  right; left. now apply (iX c s Hi).
 Qed.
 
-Lemma flush_ok_holds c s t :
-  Inv c s -> pcs s t = F5 RNil -> flush_ok all_guards c (hist s) t = true.
+Lemma visible_holds c s t :
+  Inv c s -> place s (pcs s t) = Some (base s) -> guard s t -> has_fail (hist s) = false ->
+  visible c (hist s) t = true.
 Proof.
-  intros Hi Hp. unfold flush_ok. cbn [all_guards g_shut g_fail andb].
-  destruct (1 <=? shut_calls (hist s)) eqn:Es; [reflexivity|].
-  destruct (has_fail (hist s)) eqn:Ef; [reflexivity|].
-  apply visible_holds; auto.
-  - rewrite Hp. reflexivity.
-  - repeat split; auto.
-    + intros _. rewrite (a_stopped s (iA c s Hi)). exact Es.
-    + rewrite Hp. discriminate.
+  intros Hi Hp G Hf. unfold visible. apply forallb_forall. intros r Hr.
+  destruct (in_base c s t r Hi Hp G Hr) as [H|[H|H]].
+  - apply memb_In in H. now rewrite H.
+  - rewrite H. now destruct (memb r (exported (hist s))).
+  - rewrite (v_lostE s (iV c s Hi) Hf) in H. contradiction.
+Qed.
+
+(** after failed exports: at most (#failures) * (qcap - maxb) records are unaccounted for *)
+Lemma dedup_In x l : In x (dedup l) <-> In x l.
+Proof.
+  induction l as [|y l IH]; cbn; [tauto|]. destruct (memb y l) eqn:E; cbn; rewrite IH.
+  - apply memb_In in E. split; [auto|]. intros [<-|H]; auto.
+  - tauto.
+Qed.
+Lemma dedup_NoDup l : NoDup (dedup l).
+Proof.
+  induction l as [|y l IH]; cbn; [constructor|]. destruct (memb y l) eqn:E; [assumption|].
+  constructor; [|assumption]. rewrite dedup_In. now apply memb_false.
+Qed.
+
+Lemma upto_holds c s t :
+  Inv c s -> place s (pcs s t) = Some (base s) -> guard s t -> visible_upto c (hist s) t = true.
+Proof.
+  intros Hi Hp G. unfold visible_upto. apply Nat.leb_le.
+  eapply Nat.le_trans; [|apply (q_lost c s (iQ c s Hi))].
+  apply NoDup_incl_length.
+  - unfold missing. apply NoDup_filter, dedup_NoDup.
+  - intros r Hr. unfold missing in Hr. apply filter_In in Hr as [Hr Hc].
+    apply (proj1 (dedup_In _ _)) in Hr. apply andb_true_iff in Hc as [H1 H2].
+    apply negb_true_iff in H1, H2.
+    destruct (in_base c s t r Hi Hp G Hr) as [H|[H|H]]; [apply memb_In in H; congruence | congruence | exact H].
+Qed.
+
+Lemma filter_none {A} (f : A -> bool) l : (forall x, In x l -> f x = false) -> filter f l = [].
+Proof.
+  induction l as [|x l IH]; cbn; intro H; [reflexivity|].
+  rewrite (H x (or_introl eq_refl)). apply IH. intros y Hy. apply H. now right.
+Qed.
+Lemma filter_length_le {A} (f g : A -> bool) l :
+  (forall x, f x = true -> g x = true) -> length (filter f l) <= length (filter g l).
+Proof.
+  intro H. induction l as [|x l IH]; cbn; [lia|].
+  destruct (f x) eqn:Ef; [rewrite (H x Ef); cbn; lia | destruct (g x); cbn; lia].
+Qed.
+Lemma upto_ext c h t e :
+  is_call_of t e = false -> ev_exported e = [] -> is_fail e = false ->
+  visible_upto c h t = true -> visible_upto c (h ++ [e]) t = true.
+Proof.
+  unfold visible_upto, missing, fails. intros Hc He Hf Hv. apply Nat.leb_le in Hv. apply Nat.leb_le.
+  rewrite before_call_snoc, Hc, exported_snoc, He, app_nil_r, filter_app. cbn [filter]. rewrite Hf, app_nil_r.
+  eapply Nat.le_trans; [|exact Hv]. apply filter_length_le. intros x Hx.
+  apply andb_true_iff in Hx as [H1 H2]. rewrite H1. cbn. apply negb_true_iff in H2. apply negb_true_iff.
+  destruct (excused c h x) eqn:E; [|reflexivity]. now rewrite (excused_mono c h e x E) in H2.
 Qed.
 
 Lemma visible_ext c h t e :
@@ -221,18 +269,29 @@ Proof.
   - destruct (memb r (exported (h ++ [e]))); [reflexivity|]. now apply excused_mono.
 Qed.
 
+Lemma flush_ok_holds c s t :
+  Inv c s -> pcs s t = F5 RNil -> flush_ok all_guards c (hist s) t = true.
+Proof.
+  intros Hi Hp. unfold flush_ok. cbn [all_guards g_shut g_fail andb].
+  destruct (1 <=? shut_calls (hist s)) eqn:Es; [reflexivity|].
+  assert (G : guard s t).
+  { split; [intros _; rewrite (a_stopped s (iA c s Hi)); exact Es | rewrite Hp; discriminate]. }
+  assert (Hpl : place s (pcs s t) = Some (base s)) by (rewrite Hp; reflexivity).
+  destruct (has_fail (hist s)) eqn:Ef; [now apply upto_holds | now apply visible_holds].
+Qed.
+
 Lemma shut_ok_holds c s t :
   Inv c s -> pcs s t = S8 RNil -> shut_ok all_guards c (hist s ++ [EvExpShutdown]) t = true.
 Proof.
   intros Hi Hp. unfold shut_ok. cbn [all_guards g_shut g_fail andb].
   rewrite shut_calls_snoc, has_fail_snoc. cbn [is_shut_call is_fail]. rewrite Nat.add_0_r, orb_false_r.
   destruct (2 <=? shut_calls (hist s)) eqn:Es; [reflexivity|].
-  destruct (has_fail (hist s)) eqn:Ef; [reflexivity|].
-  apply visible_ext; [reflexivity|]. apply visible_holds; auto.
-  - rewrite Hp. reflexivity.
-  - repeat split; auto.
-    + rewrite Hp. discriminate.
-    + intros _. apply Nat.leb_gt in Es. lia.
+  assert (G : guard s t).
+  { split; [rewrite Hp; discriminate | intros _; apply Nat.leb_gt in Es; lia]. }
+  assert (Hpl : place s (pcs s t) = Some (base s)) by (rewrite Hp; reflexivity).
+  destruct (has_fail (hist s)) eqn:Ef.
+  - apply upto_ext; try reflexivity. now apply upto_holds.
+  - apply visible_ext; [reflexivity|]. now apply visible_holds.
 Qed.
 
 (** ** the whole (guarded) specification along every schedule *)
@@ -305,6 +364,22 @@ Section Readings2.
     now apply (visible_reading h1 t r).
   Qed.
 
+  Lemma p_flush_bounded_loss h1 t h2 :
+    hist s = h1 ++ EvRet t OpFlush RNil :: h2 -> shut_calls h1 = 0 ->
+    length (missing c h1 t) <= fails h1 * (qcap c - maxb c).
+  Proof.
+    intros Hh Hs. pose proof (spec_reach c sch s Hv Hr) as Hsp.
+    unfold spec_ok, spec_gen in Hsp. rewrite Hh in Hsp.
+    apply (all_pos_at _ h1 (EvRet t OpFlush RNil) h2) in Hsp.
+    cbn [ev_ok] in Hsp. unfold flush_ok in Hsp. rewrite Hs in Hsp. cbn in Hsp.
+    destruct (has_fail h1) eqn:Ef; [now apply Nat.leb_le in Hsp|].
+    (* no failure: nothing is missing at all *)
+    assert (missing c h1 t = []) as ->; [|apply Nat.le_0_l].
+    unfold missing. apply filter_none. intros r Hx.
+    apply (proj1 (dedup_In _ _)) in Hx. unfold visible in Hsp. rewrite forallb_forall in Hsp. specialize (Hsp r Hx).
+    destruct (memb r (exported h1)); [reflexivity|]. now rewrite Hsp.
+  Qed.
+
   Lemma p_shutdown_drains h1 t h2 :
     hist s = h1 ++ EvRet t OpShutdown RNil :: h2 ->
     shut_calls h1 <= 1 -> has_fail h1 = false ->
@@ -335,5 +410,48 @@ Lemma p_no_send_on_closed c sch s a s' :
   valid c -> exec c sch = Some s -> step c s a = Some s' ->
   length (input s) < length (input s') -> closed s = false.
 Proof.
-  intros Hv Hr. destruct (inv_reach c sch s Hv Hr) as [HA _ _ _ HE _ _]. now apply push_not_closed.
+  intros Hv Hr. destruct (inv_reach c sch s Hv Hr) as [HA _ _ _ HE _ _ _ _]. now apply push_not_closed.
+Qed.
+
+Lemma p_bounded c sch s :
+  valid c -> exec c sch = Some s ->
+  length (ring s) <= qcap c /\ length (input s) <= bufsz c /\
+  Forall (fun q => length (req_recs q) <= qcap c) (input s) /\
+  length (lostE s) <= fails (hist s) * (qcap c - maxb c).
+Proof.
+  intros Hv Hr. destruct (iQ c s (inv_reach c sch s Hv Hr)) as [H1 H2 H3 _ _ H6]. auto.
+Qed.
+
+(** ** order relative to what was exported before the first Shutdown call (no guard) *)
+Definition ord0_ev (pre : history) (e : event) : bool :=
+  match e with EvBegin b => all_before (exported (before_shut pre)) b | _ => true end.
+
+Lemma ord0_step c s a s' :
+  Inv c s -> step c s a = Some s' ->
+  all_pos ord0_ev (hist s) = true -> all_pos ord0_ev (hist s') = true.
+Proof.
+  intros Hi H Hs.
+  destruct a; open_step H; sst'; rewrite ?all_pos_snoc, ?Hs; cbn [ord0_ev andb]; auto.
+  eapply all_before_holds; eauto using iB, iO.
+Qed.
+
+Lemma ord0_run c sch : valid c -> forall s s', Inv c s -> all_pos ord0_ev (hist s) = true ->
+  run_from c s sch = Some s' -> all_pos ord0_ev (hist s') = true.
+Proof.
+  intro Hv. induction sch as [|a r IH]; cbn; intros s s' Hi Hs H.
+  - inversion H; now subst.
+  - destruct (step c s a) eqn:E; [|discriminate].
+    eapply IH; [eapply inv_step; eauto | eapply ord0_step; eauto | exact H].
+Qed.
+
+Lemma p_order_before_shutdown c sch s :
+  valid c -> exec c sch = Some s ->
+  forall h1 b h2, hist s = h1 ++ EvBegin b :: h2 ->
+  forall a x, In a (exported (before_shut h1)) -> In x b -> before_ok a x = true.
+Proof.
+  intros Hv Hr h1 b h2 Hh a x Ha Hx.
+  assert (Hs : all_pos ord0_ev (hist s) = true) by (eapply ord0_run; eauto using inv_init).
+  rewrite Hh in Hs. apply (all_pos_at _ h1 (EvBegin b) h2) in Hs. cbn in Hs.
+  unfold all_before in Hs. rewrite forallb_forall in Hs. specialize (Hs a Ha).
+  rewrite forallb_forall in Hs. now apply Hs.
 Qed.
